@@ -4,7 +4,8 @@
     cone is Clean and current. *)
 From Coq Require Import List ZArith Bool Arith Lia.
 From LV Require Import Reactive.Graph Reactive.GraphLemmas Reactive.GraphInvariant
-                       Reactive.GraphMarkProofs Reactive.GraphPullBase Reactive.GraphPullSteps
+                       Reactive.GraphMarkProofs Reactive.GraphMarkOrigin Reactive.GraphQueueProofs
+                       Reactive.GraphPullBase Reactive.GraphPullSteps
                        Reactive.GraphPullDefs Reactive.GraphPullEval Reactive.GraphPullRead
                        Reactive.GraphPullMemo Reactive.GraphPullProofs.
 Import ListNotations.
@@ -19,93 +20,178 @@ Notation effb := (effb p).
 Notation sigb := (sigb p).
 Notation WF := (WF p).
 Notation Inv := (Inv p).
-Notation InvW := (InvW p).
+Notation Rest := (Rest p).
 Notation cur := (cur p).
 Notation MarkRel := (MarkRel p).
 
 (* with nothing running the bound is irrelevant *)
 Lemma Inv_nil t t' s : Inv [] t s -> Inv [] t' s.
-Proof.
-  intros [Iw Iv]. split; auto. destruct Iw. split; auto; intros k; intros; contradiction.
-Qed.
+Proof. intros I. split; try apply I. intros k []. Qed.
 
 Definition Inv0 (s : state) : Prop := Inv [] 0 s.
 
-(* ---------------------------------------------------------------- a signal is written / notifies *)
-Lemma fold_mark_all l s :
-  fold_left (fun a k => mark_dirty p k a) l s =
-  fold_left (fun a k => if (fun _ : nat => false) k then a else mark_dirty p k a) l s.
-Proof. reflexivity. Qed.
+(* ---------------------------------------------------------------- monotonicity of the needs *)
+(* marking only raises states and flags: a node that still needs something needed it before *)
+Section Mono.
+Variables (s s' : state) (k : nat).
+Hypothesis Hca : cache (getn s' k) = cache (getn s k).
+Hypothesis Hle : st_le (st (getn s k)) (st (getn s' k)).
+Hypothesis Hal : ealive (getn s' k) = ealive (getn s k).
+Hypothesis Hfi : efirst (getn s' k) = efirst (getn s k).
+Hypothesis Hmi : emissed (getn s' k) = emissed (getn s k).
+Hypothesis Hpo : epoll (getn s' k) = epoll (getn s k).
+Hypothesis Bd : bool_le (edirty (getn s k)) (edirty (getn s' k)).
+Hypothesis Bf : bool_le (eflag (getn s k)) (eflag (getn s' k)).
 
+Lemma needs_cur_mono : needs_cur p s' k -> needs_cur p s k.
+Proof.
+  unfold GraphInvariant.needs_cur, needs_cur_n, hasrun_n. rewrite Hca, Hal, Hfi.
+  destruct (decl_of p k) as [| | |kd b h]; auto.
+  - intros [Hc Hd]. split; auto. intros E. apply Hd. apply st_le_dirty. rewrite <- E. exact Hle.
+  - intros (Ha & Hh & Hd). split; auto. split; auto.
+    destruct (edirty (getn s k)) eqn:E; auto. rewrite (Bd eq_refl) in Hd. discriminate.
+Qed.
+
+Lemma needs_clean_mono : needs_clean p s' k -> needs_clean p s k.
+Proof.
+  unfold GraphInvariant.needs_clean, needs_clean_n, hasrun_n. rewrite Hca, Hal, Hfi, Hmi, Hpo.
+  destruct (decl_of p k) as [| | |kd b h]; auto.
+  - intros [Hc Hd]. split; auto. apply st_le_clean. rewrite <- Hd. exact Hle.
+  - intros (Ha & Hh & Hd & Hf & Hrest). split; auto. split; auto.
+    split; [destruct (edirty (getn s k)) eqn:E; auto; rewrite (Bd eq_refl) in Hd; discriminate|].
+    split; [destruct (eflag (getn s k)) eqn:E; auto; rewrite (Bf eq_refl) in Hf; discriminate|auto].
+Qed.
+
+(* a node that will run either was going to already, or has just been made Dirty / dirty *)
+Lemma will_run_cases :
+  will_run p s' k ->
+  will_run p s k \/ (st (getn s' k) = Dirty /\ st (getn s k) <> Dirty) \/
+  (edirty (getn s' k) = true /\ edirty (getn s k) = false).
+Proof.
+  unfold GraphInvariant.will_run, will_run_n, hasrun_n. rewrite Hca, Hal, Hfi.
+  destruct (decl_of p k) as [| | |kd b h]; try contradiction.
+  - intros [Hc Hd]. destruct (nstate_eqb (st (getn s k)) Dirty) eqn:E.
+    + apply nstate_eqb_eq in E. auto.
+    + apply nstate_eqb_neq in E. auto.
+  - intros (Ha & Hh & Hd). destruct (edirty (getn s k)) eqn:E; auto.
+Qed.
+End Mono.
+
+Lemma MarkedAt_not_needs_clean s k :
+  (memob k = true -> st (getn s k) <> Clean) ->
+  (effb k = true -> ealive (getn s k) = true -> eflag (getn s k) = true) ->
+  ~ needs_clean p s k.
+Proof.
+  intros M1 M2 H. unfold GraphInvariant.needs_clean, needs_clean_n in H.
+  destruct (decl_of p k) eqn:Hd; try contradiction.
+  - destruct H as [_ H]. apply M1; auto. unfold GraphInvariant.memob. rewrite Hd. auto.
+  - destruct H as (Ha & _ & _ & Hf & _). rewrite M2 in Hf; auto; [discriminate|].
+    unfold GraphInvariant.effb. rewrite Hd. auto.
+Qed.
+
+(* ---------------------------------------------------------------- a signal is written / notifies *)
 Lemma Inv_notify j v s :
   Inv0 s -> sigb j = true ->
   Inv0 (notify_sig p j (updn j (fun n => set_sval n v) s)).
 Proof.
-  intros [Iw Iv] Hsj. unfold notify_sig.
-  assert (W : WF s) by apply Iw.
+  intros I Hsj. unfold notify_sig.
+  assert (W : WF s) by apply I.
+  assert (Hdj : exists tk iv, decl_of p j = DSig tk iv).
+  { unfold GraphInvariant.sigb in Hsj. destruct (decl_of p j); try discriminate. eauto. }
+  destruct Hdj as (tk & iv & Hdj).
   set (s1 := updn j (fun n => set_sval n v) s).
   set (s2 := add_cause j s1).
-  assert (H1 : forall k, st (getn s1 k) = st (getn s k) /\ cache (getn s1 k) = cache (getn s k) /\
+  assert (V1 : forall k, st (getn s1 k) = st (getn s k) /\ cache (getn s1 k) = cache (getn s k) /\
                          rlog (getn s1 k) = rlog (getn s k) /\ srcs (getn s1 k) = srcs (getn s k) /\
-                         subs (getn s1 k) = subs (getn s k)).
-  { intros k. unfold s1. destruct (getn_updn_cases j (fun n => set_sval n v) s k) as [[-> E]|E]; rewrite E; nsimpl; auto. }
+                         subs (getn s1 k) = subs (getn s k) /\ since (getn s1 k) = since (getn s k) /\
+                         qview_eq (getn s k) (getn s1 k)).
+  { intros k. unfold s1. destruct (getn_updn_cases j (fun n => set_sval n v) s k) as [[_ E]|E]; rewrite E;
+      unfold qview_eq; nsimpl; intuition. }
   assert (H1s : forall k, k <> j -> sval (getn s1 k) = sval (getn s k)).
   { intros k Hk. unfold s1. rewrite getn_updn_other; auto. }
   assert (H2 := fun k => add_cause_getn j s1 k). cbv zeta in H2. fold s2 in H2.
   assert (H2m := add_cause_misc j s1). fold s2 in H2m.
-  assert (H12 : forall k, st (getn s2 k) = st (getn s k) /\ cache (getn s2 k) = cache (getn s k) /\
-                          rlog (getn s2 k) = rlog (getn s k) /\ srcs (getn s2 k) = srcs (getn s k) /\
-                          subs (getn s2 k) = subs (getn s k)).
-  { intros k. specialize (H1 k). specialize (H2 k). intuition congruence. }
+  assert (V2 : forall k, st (getn s2 k) = st (getn s k) /\ cache (getn s2 k) = cache (getn s k) /\
+                         rlog (getn s2 k) = rlog (getn s k) /\ srcs (getn s2 k) = srcs (getn s k) /\
+                         subs (getn s2 k) = subs (getn s k) /\ qview_eq (getn s k) (getn s2 k)).
+  { intros k. specialize (V1 k). specialize (H2 k). unfold qview_eq in *. intuition congruence. }
+  assert (Hsince2 : forall k, since (getn s2 k) = if tracks (getn s k) j then j :: since (getn s k) else since (getn s k)).
+  { intros k. unfold s2. rewrite add_cause_since. destruct (V1 k) as (_&_&Hr&_&_&Hs&_).
+    assert (Et : tracks (getn s1 k) j = tracks (getn s k) j) by (unfold tracks; rewrite Hr; reflexivity).
+    rewrite Et, Hs. reflexivity. }
   assert (W2 : WF s2).
   { apply (WF_same_edges p s s2); auto.
     - destruct H2m as (->&_). unfold s1. apply nlen_updn.
-    - intros k. destruct (H12 k) as (_&_&_&?&?). auto. }
+    - intros k. destruct (V2 k) as (_&_&_&?&?&_). auto. }
+  assert (Q2 : QueueAll p s2).
+  { unfold QueueAll. destruct H2m as (_&_&Hr2&_). apply (queue_transfer p s s2); [exact Hr2| |apply I].
+    intros e. apply V2. }
   assert (HML := mark_dirty_list p (fun _ => false) (subs (getn s2 j)) (fun _ _ => False) s2 s2 W2 (MarkRel_refl p s2)).
-  cbv beta iota zeta in HML.
+  assert (OR := fun k => mark_dirty_list_origin p (fun _ => false) (subs (getn s2 j)) s2 k).
+  assert (QF := mark_dirty_list_queue p (fun _ => false) (subs (getn s2 j)) s2 Q2).
+  cbv beta iota zeta in HML, OR, QF.
   destruct HML as (MR & CX & DF).
   { intros y k HE; contradiction. }
   set (s' := fold_left (fun a k => mark_dirty p k a) (subs (getn s2 j)) s2) in *.
   assert (Hcore := fun k => mr_core p _ _ MR k).
   assert (F : forall k, cache (getn s' k) = cache (getn s k) /\ rlog (getn s' k) = rlog (getn s k) /\
                         srcs (getn s' k) = srcs (getn s k) /\ subs (getn s' k) = subs (getn s k) /\
-                        st_le (st (getn s k)) (st (getn s' k))).
-  { intros k. destruct (Hcore k) as (_&?&?&?&?&_). destruct (H12 k) as (Hs&?&?&?&?).
-    pose proof (mr_st p _ _ MR k) as Hle. rewrite Hs in Hle. intuition congruence. }
+                        st_le (st (getn s k)) (st (getn s' k)) /\
+                        ealive (getn s' k) = ealive (getn s k) /\ efirst (getn s' k) = efirst (getn s k) /\
+                        emissed (getn s' k) = emissed (getn s k) /\ epoll (getn s' k) = epoll (getn s k) /\
+                        bool_le (edirty (getn s k)) (edirty (getn s' k)) /\
+                        bool_le (eflag (getn s k)) (eflag (getn s' k)) /\
+                        since (getn s' k) = since (getn s2 k)).
+  { intros k. destruct (Hcore k) as (_&?&?&?&?&?&?&_&?&_&?&?). destruct (V2 k) as (Hs&?&?&?&?&Hq).
+    unfold qview_eq in Hq. destruct Hq as (Hd&Hf&_&?&?&_&?&?).
+    pose proof (mr_st p _ _ MR k) as Hle. rewrite Hs in Hle.
+    pose proof (mr_edirty p _ _ MR k) as B1. pose proof (mr_eflag p _ _ MR k) as B2.
+    rewrite Hd in B1. rewrite Hf in B2. intuition congruence. }
   assert (Fcur : forall x, x <> j -> cur s' x = cur s x).
   { intros x Hx. unfold GraphInvariant.cur, cache_val. destruct (F x) as (->&_).
     destruct (Hcore x) as (->&_). destruct (H2 x) as (->&_). rewrite H1s; auto. }
   assert (Frl : forall k, rlog (getn s' k) = rlog (getn s k)) by (intros k; apply F).
-  split; [split|]; try (intros k; intros; contradiction).
+  assert (Hsubs2 : subs (getn s2 j) = subs (getn s j)) by apply V2.
+  split.
   - eapply MarkRel_WF; eauto.
-  - rewrite (mr_err p _ _ MR). destruct H2m as (_&->&_). apply Iw.
-  - intros k _. unfold L1. destruct (F k) as (_&->&->&_). apply Iw; auto.
-  - intros k Hmk _. pose proof (inv_memo_c _ _ _ _ Iw k Hmk (fun x => x)) as HM.
-    unfold GraphInvariant.MemoOKc in *. destruct (F k) as (->&->&_&_&Hle).
-    destruct (cache (getn s k)).
-    + intros Hc x w Hx Hmx.
-      assert (Hcs : st (getn s k) = Clean) by (apply st_le_clean; rewrite <- Hc; exact Hle).
-      rewrite Frl in Hx. pose proof (HM Hcs x w Hx Hmx) as Hxc.
+  - rewrite (mr_err p _ _ MR). destruct H2m as (_&->&_). apply I.
+  - rewrite (mr_nocause p _ _ MR). destruct H2m as (_&_&_&_&_&->). apply I.
+  - intros k _.
+    destruct (inv_rest _ _ _ _ I k (fun x => x)) as (R1 & R2 & R3 & R4 & R5).
+    destruct (F k) as (Fca & Frk & Fsk & Fsu & Fle & Fal & Ffi & Fmi & Fpo & Fbd & Fbf & Fsi).
+    split; [unfold L1; rewrite Fsk, Frk; exact R1|].
+    split.
+    { unfold uncached_ok in *. destruct (decl_of p k); auto. rewrite Fca, Frk.
+      intros Hc. destruct (R2 Hc) as [Hd Hr]. split; auto. apply st_le_dirty. rewrite <- Hd. exact Fle. }
+    split; [|split].
+    + intros Hn x w Hx. rewrite Frk in Hx.
+      pose proof (R3 (needs_cur_mono s s' k Fca Fle Fal Ffi Fbd Hn) x w Hx) as Hcx.
+      destruct (Nat.eq_dec x j) as [->|Hxj]; [|rewrite Fcur; auto].
+      exfalso. apply (DirtyAt_not_needs_cur p s' k); auto. apply DF; auto.
+      rewrite Hsubs2. eapply wf_src_sub; eauto. rewrite R1. apply in_tracked_of. eauto.
+    + intros Hn x w Hx Hmx. rewrite Frk in Hx.
+      pose proof (R4 (needs_clean_mono s s' k Fca Fle Fal Ffi Fmi Fpo Fbd Fbf Hn) x w Hx Hmx) as Hxc.
       destruct (nstate_eqb (st (getn s' x)) Clean) eqn:En; [apply nstate_eqb_eq; auto|].
       apply nstate_eqb_neq in En. exfalso.
       assert (Hks : In k (subs (getn s' x))).
-      { destruct (F x) as (_&_&_&->&_). eapply wf_src_sub; eauto.
-        rewrite (inv_l1 _ _ _ _ Iw k (fun x => x)). apply in_tracked_of; eauto. }
-      destruct (CX x k (fun x => x) Hmx) as [Hk _]; auto.
-      { destruct (H12 x) as (->&_). exact Hxc. }
-      apply (Hk Hmk Hc).
-    + destruct HM as [Hd Hr]. split; auto. apply st_le_dirty. rewrite <- Hd. exact Hle.
-  - intros k Hmk _. unfold GraphInvariant.MemoOKv. destruct (F k) as (->&_&_&_&Hle).
-    intros Hcn Hd x w Hx. rewrite Frl in Hx.
-    assert (Hds : st (getn s k) <> Dirty).
-    { intros E. apply Hd. apply st_le_dirty. rewrite <- E. exact Hle. }
-    destruct (Nat.eq_dec x j) as [->|Hxj].
-    + exfalso. apply Hd.
-      assert (Hks : In k (subs (getn s2 j))).
-      { destruct (H12 j) as (_&_&_&_&->). eapply wf_src_sub; eauto.
-        rewrite (inv_l1 _ _ _ _ Iw k (fun x => x)). apply in_tracked_of; eauto. }
-      destruct (DF k Hks eq_refl) as [Hdk _]. auto.
-    + rewrite Fcur by auto. apply (Iv k Hmk (fun x => x) Hcn Hds x w Hx).
+      { destruct (F x) as (_&_&_&->&_). eapply wf_src_sub; eauto. rewrite R1. apply in_tracked_of; eauto. }
+      destruct (CX x k (fun x => x) Hmx) as [Hk1 Hk2]; auto.
+      { destruct (V2 x) as (->&_). exact Hxc. }
+      apply (MarkedAt_not_needs_clean s' k Hk1 Hk2 Hn).
+    + intros Hw. rewrite Fsi, Hsince2.
+      assert (Hcases := will_run_cases s s' k). destruct Hcases as [Hold|Hnew]; auto.
+      * destruct (tracks (getn s k) j); [discriminate|apply R5; auto].
+      * assert (Hin : In k (subs (getn s2 j))).
+        { destruct (OR k) as [O1 O2]. destruct (V2 k) as (Hs2&_&_&_&_&Hq). unfold qview_eq in Hq.
+          destruct Hq as (Hd2&_). rewrite Hs2 in O1. rewrite Hd2 in O2.
+          destruct Hnew as [[Hd Hnd]|[Hd Hnd]].
+          - destruct (O1 Hd) as [?|[? _]]; [contradiction|auto].
+          - destruct (O2 Hd) as [?|[? _]]; [congruence|auto]. }
+        assert (Ht : tracks (getn s k) j = true).
+        { apply tracks_iff. rewrite <- R1. eapply wf_sub_src; eauto. rewrite <- Hsubs2. exact Hin. }
+        rewrite Ht. discriminate.
+  - exact QF.
+  - intros k [].
 Qed.
 
 (* ---------------------------------------------------------------- a read from outside *)
@@ -142,15 +228,19 @@ Inductive ConsistentM (s : state) : nat -> Prop :=
 Lemma clean_consistent s : Inv0 s ->
   forall j, memob j = true -> st (getn s j) = Clean -> ConsistentM s j.
 Proof.
-  intros [Iw Iv] j. induction j as [j IH] using lt_wf_ind. intros Hm Hc.
-  pose proof (inv_memo_c _ _ _ _ Iw j Hm (fun x => x)) as HM. unfold GraphInvariant.MemoOKc in HM.
-  destruct (cache (getn s j)) eqn:Ec; [|destruct HM; congruence].
-  constructor; auto; [congruence|].
+  intros I j. induction j as [j IH] using lt_wf_ind. intros Hm Hc.
+  destruct (inv_rest _ _ _ _ I j (fun x => x)) as (R1 & R2 & R3 & R4 & _).
+  destruct (memob_decl p j Hm) as (cm & e & Hd).
+  unfold uncached_ok, GraphInvariant.needs_cur, GraphInvariant.needs_clean in *. rewrite Hd in *.
+  cbn [needs_cur_n needs_clean_n] in *.
+  assert (Hcn : cache (getn s j) <> None).
+  { intros E. destruct (R2 E). congruence. }
+  constructor; auto.
   intros x vx Hx. split.
-  - apply (Iv j Hm (fun x => x)); auto; congruence.
+  - apply R3; auto. split; auto. congruence.
   - intros Hmx. apply IH; auto.
-    + eapply wf_srclt; [apply Iw|]. rewrite (inv_l1 _ _ _ _ Iw j (fun x => x)). apply in_tracked_of; eauto.
-    + eapply HM; eauto.
+    + eapply wf_srclt; [apply I|]. rewrite R1. apply in_tracked_of; eauto.
+    + eapply R4; eauto.
 Qed.
 
 End P.
